@@ -21,6 +21,12 @@ TraceNext ==
                                       + Soft("ShutdownClosesAll", \A g \in got \cup created : g[2] \in closedW, {g \in got \cup created : g[2] \notin closedW})
                                       + Soft("OnePipelinePerTopic", \A c1, c2 \in created : c1[1] = c2[1] => c1 = c2, Cardinality(created))
                                  /\ created' = {} /\ got' = {} /\ closedW' = {} /\ UNCHANGED scn
+       \* real writers (no injected stand-ins) against a broker that accepts connections and never answers: every producer's
+       \* publication - first event on a new topic or not - has returned within the bound (seconds; the broker's own time-outs
+       \* are an order of magnitude longer)
+       [] Line.ev = "BlackHole" -> /\ nviol' = nviol + Soft("ProducersNeverWaitForBroker", Line.returned = Line.total,
+                                                          <<"publications still blocked", Line.total - Line.returned, Line.bound_ms>>)
+                                   /\ UNCHANGED <<scn, created, got, closedW>>
        [] OTHER -> UNCHANGED <<scn, created, got, closedW, nviol>>
   /\ l' = l + 1
 TraceSpec == TraceInit /\ [][TraceNext]_<<l, scn, created, got, closedW, nviol>>
